@@ -182,6 +182,9 @@ def run(chk):
         'reaches a field or converter slot declared with a library value type (Player, Pair, Suit, Vul, Bid, Card, Contract, '
         'Hands). R4 envelope: the literals of open/_write_content/close form valid JSON around 0..3 records; TAG constants are the '
         'keys the parser reads. The inverse tables of the individual converters are C15.')
+    # whole-document evaluation first: what it finds is definite whatever shape the per-expression rules below expect
+    from .jsonfile import log_rule
+    log_rule(chk, 'C12.R6')
     schemas = load_schemas(repo, 'C12.R1')
     # ---- R1 -----------------------------------------------------------------------------------------------------
     rec = WriterRecord(repo, 'JsonLogWriter', 'C12.R1', chk=chk)
@@ -273,13 +276,7 @@ def run(chk):
                 and isinstance(n.slice.value, str)}
         chk.require(tags <= keys, 'C12.R4', w, q, f'{meth} reads {sorted(keys)}', f'{meth} reads the document under {sorted(tags)}',
                     f'{meth} reads keys {sorted(keys)}; the writers store the records under {sorted(tags)}')
-        conv = 'convert_board_log' if meth == 'parse_board_logs' else 'convert_board_setting'
-        calls = [n for n in ast.walk(fn) if isinstance(n, ast.Call) and ast.unparse(n.func) == conv]
-        loops = [n for n in ast.walk(fn) if isinstance(n, ast.For)]
-        good = len(calls) == 1 and len(loops) == 1 and any(c in list(ast.walk(loops[0])) for c in calls) and \
-            any(isinstance(x, ast.Call) and isinstance(x.func, ast.Attribute) and x.func.attr == 'append' for x in ast.walk(loops[0]))
-        chk.require(good, 'C12.R4', w, q, f'{meth} loop', f'{meth} converts every record in list order (append in a for loop)',
-                    f'{meth} does not append {conv}(record) for every record in order')
+        # (that every record is converted, in list order, is decided by the whole-document rule R6)
     schema_tag = set(schemas['log_format.schema.json'].get('properties', {}))
     chk.require(tag_log in schema_tag, 'C12.R4', rec.where, rec.qual, f'schema top-level keys {sorted(schema_tag)}',
                 'the schema describes the document under the tag the writer uses', f'schema describes {sorted(schema_tag)}, writer uses {tag_log!r}')
